@@ -155,10 +155,10 @@ def check_scalar(exp, dec) -> str:
     if exp[0] == "exact":
         return "" if dec[1] == exp[1] else f"value {dec[1]} != {exp[1]}"
     if exp[0] == "float":
-        try:
-            return "" if float(dec[1]) == exp[1] else f"float({dec[1]}) != {exp[1]!r}"
-        except OverflowError:
-            return "overflow"
+        # the decimal value of a float is the one its shortest repr shows (the documented str() conversion): 1e23 is 1E+23,
+        # not the 23-digit expansion of the nearest double
+        want = Fraction(Decimal(repr(exp[1])))
+        return "" if dec[1] == want else f"value {dec[1]} != {want} (the decimal value of {exp[1]!r})"
     return "?"
 
 
